@@ -373,6 +373,35 @@ func ruleLK1(c *Ctx) {
 		}
 	}
 	c.check(resOK, name, "f:callback-error-propagates", c.Pos(cb.Pos()), "the callback's error is returned", "the callback's error is not the function's result")
+	// (g) the lock file keeps its inode: a flock belongs to the file that was opened, so whoever removes, renames over or
+	// recreates .ergo/lock by another name hands the next command a different file to lock while a holder of the old one
+	// is still inside its critical section
+	nrep := 0
+	for _, e := range c.F.Effects {
+		if e.Path == nil {
+			continue
+		}
+		switch e.Class {
+		case "remove", "rename", "truncate", "link":
+		default:
+			continue
+		}
+		if !c.pathClass(e.Path)[classLOCK] {
+			continue
+		}
+		nrep++
+		c.bad(c.Name(e.Fn), fmt.Sprintf("g:lock-inode-replaced %s#%d", calleeFullName(e.Call.Common()), nrep), c.Pos(e.Call.Pos()),
+			"the lock file is removed/replaced ("+e.Class+"): a command already holding its flock keeps the old inode, every later command locks the new one, and both run their critical sections at once")
+	}
+	// renames whose destination is the lock file
+	for _, rs := range c.renameSites() {
+		if len(rs.Call.Common().Args) >= 2 && c.pathClass(rs.Call.Common().Args[1])[classLOCK] {
+			nrep++
+			c.bad(c.Name(rs.Fn), fmt.Sprintf("g:lock-inode-replaced rename-onto#%d", nrep), c.Pos(rs.Call.Pos()),
+				"a file is renamed over the lock file: a command already holding its flock keeps the old inode and mutual exclusion is lost")
+		}
+	}
+	c.check(nrep == 0, "<module>", "g:lock-inode-stable", "-", "the lock file is never removed, truncated or renamed over", fmt.Sprintf("%d operations replace the lock file", nrep))
 }
 
 // ------------------------------------------------------------------ LK2
